@@ -179,6 +179,10 @@ impl Region {
         self.0.push(box_);
     }
 
+    pub fn is_empty(&self) -> bool {
+        self.0.is_empty()
+    }
+
     /// cleanup and sort boxes
     fn cleanup_and_normalize(&mut self) {
         for box_ in &mut self.0 {
